@@ -59,6 +59,17 @@ def real_point(spec):
         if spec.get("fields"):
             p.fields = dict(spec["fields"])
         return p
+    if spec.get("assign") and spec.get("t") is not None:
+        # every attribute given by assignment after construction instead of through the constructor
+        p = Point()
+        p.time = real_time(spec["t"])
+        if spec.get("m") is not None:
+            p.measurement = spec["m"]
+        if spec.get("tags"):
+            p.tags = dict(spec["tags"])
+        if spec.get("fields"):
+            p.fields = dict(spec["fields"])
+        return p
     if spec.get("t") is not None:
         kw["time"] = real_time(spec["t"])
     if spec.get("m") is not None:
@@ -239,7 +250,9 @@ class Session:
         else:
             t.path = self.scratch.new_db_path()
             try:
-                self.db.storage._handle.flush()
+                for v_ in list(vars(self.db.storage).values()):
+                    if hasattr(v_, "flush") and hasattr(v_, "closed") and not v_.closed:
+                        v_.flush()
             except Exception:
                 pass
             shutil.copyfile(self.path, t.path)
@@ -372,6 +385,29 @@ class Session:
                 arg = iter(ps)
             elif form == "values":
                 arg = {i: p_ for i, p_ in enumerate(ps)}.values()
+            bad_at = op.get("bad_at")
+            if bad_at is not None:
+                # a batch that fails part-way: a non-Point element / a source that raises after `bad_at` good points
+                bad_at = min(bad_at, len(ps))
+                if op.get("bad_kind") == "raise":
+                    def source(ps=ps, k=bad_at):
+                        yield from ps[:k]
+                        raise RuntimeError("point source failed")
+
+                    arg = source()
+                    out.exp_exc = ("RuntimeError",)
+                else:
+                    seq = ps[:bad_at] + ["not a point"] + ps[bad_at:]
+                    arg = tuple(seq) if form == "tuple" else iter(seq) if form in ("gen", "iter") else seq
+                    out.exp_exc = ("TypeError",)
+                out.exp = None
+                try:
+                    out.real = self._call(tgt.insert_multiple, arg, **kw)
+                finally:
+                    t1 = to_us(datetime.now(timezone.utc))
+                    for s, p in list(zip(op["ps"], ps))[:bad_at]:
+                        mdl.insert(self._model_point(s, m if via_h else mfilter, p, t0, t1, out))
+                return
             out.real = self._call(tgt.insert_multiple, arg, **kw)
             t1 = to_us(datetime.now(timezone.utc))
             for s, p in zip(op["ps"], ps):
